@@ -78,7 +78,10 @@ impl Default for GenOpts {
 // small ids, negative ids, i32::MAX, and ids that an f32 cannot represent (|id| > 2^24)
 pub const ID_POOL: [i32; 11] = [0, 1, 2, 3, 7, -1, -5, 2147483647, 16777217, -2000000001, 123456789];
 
-pub const HOSTILE_COMMENTS: [&str; 14] = [
+pub const HOSTILE_COMMENTS: [&str; 16] = [
+    // the texts the library itself writes on the lines it generates: a declared line carrying one is still a declared line
+    "Equilibrado de consumo sin producción declarada",
+    "Reasignación automática de consumos auxiliares",
     "caldera <A> & \"B\"",
     "x < y > z && w",
     "it's 'quoted'",
@@ -176,6 +179,9 @@ pub fn building(r: &mut Rng, o: &GenOpts) -> Spec {
     let n = o.steps.unwrap_or_else(|| {
         if o.long_steps && r.chance(1, 40) {
             *r.pick(&[365usize, 8760])
+        } else if r.chance(1, 25) {
+            // lengths that are no multiple of the usual block sizes (weeks, days of a month, primes)
+            *r.pick(&[5usize, 7, 13, 25, 31, 48, 52, 53, 73, 100])
         } else {
             *r.pick(&[1usize, 1, 2, 3, 4, 12, 12, 12, 24])
         }
@@ -408,6 +414,20 @@ pub fn building(r: &mut Rng, o: &GenOpts) -> Spec {
                     if g.r.chance(1, 8) {
                         let u2 = g.amounts(0.2, 3);
                         outs.push(L { line: Line::Out { id, srv: s.to_string(), v: vec![], comment: String::new() }, u: u2 });
+                    }
+                }
+                if multi && g.r.chance(1, 5) {
+                    // delivered energy for a service this system has no consumption line for (free cooling, recovered
+                    // heat): the auxiliaries are shared among the services the system *delivers* energy for
+                    if let Some(s) = ["REF", "ACS", "CAL"].iter().find(|s| !srvs.iter().any(|x| x == *s)) {
+                        let mut u = g.amounts(0.75, 1);
+                        if u.iter().any(|x| *x != 0) {
+                            any_nonzero = true;
+                        }
+                        if o.neg_out && *s == "REF" && g.r.chance(3, 4) {
+                            u.iter_mut().for_each(|x| *x = -*x);
+                        }
+                        outs.push(L { line: Line::Out { id, srv: s.to_string(), v: vec![], comment: String::new() }, u });
                     }
                 }
                 if multi && !hostile_here && !any_nonzero {
